@@ -11,6 +11,7 @@ REPO = os.environ.get("VP_REPO", "/repo")
 
 
 def _run_on_patch(prop, patch, scratch):
+    scratch = tempfile.mkdtemp(prefix="p-", dir=scratch)
     repo = os.path.join(scratch, "repo")
     shutil.rmtree(repo, ignore_errors=True)
     os.makedirs(repo)
@@ -25,49 +26,42 @@ def _run_on_patch(prop, patch, scratch):
 
 
 def run(prop):
-    """Returns list of dicts {kind, name, ok, detail}."""
-    res = []
+    """Returns list of dicts {kind, name, ok, detail}. The scratch runs are independent; VP_SELFTEST_JOBS (4) at a time."""
+    from concurrent.futures import ThreadPoolExecutor
+    jobs = []   # (kind, name, patch path)
+    sdir = os.path.join(VERIF, "seeded")
+    for name in sorted(os.listdir(sdir)) if os.path.isdir(sdir) else []:
+        mp = os.path.join(sdir, name, "meta.json")
+        if not os.path.exists(mp):
+            continue
+        meta = json.load(open(mp))
+        targets = [meta.get("property")] + list(meta.get("also_breaks", []))
+        if prop in targets:
+            jobs.append(("must-fire", name, os.path.join(sdir, name, "patch.diff")))
+    mdir = os.path.join(VERIF, "selftest", "mutants", prop)
+    for fn in sorted(os.listdir(mdir)) if os.path.isdir(mdir) else []:
+        if fn.endswith(".diff"):
+            jobs.append(("must-fire", "mutants/" + fn, os.path.join(mdir, fn)))
+    edir = os.path.join(VERIF, "selftest", "equivalents")
+    for sub in (prop, "all"):
+        d = os.path.join(edir, sub)
+        for fn in sorted(os.listdir(d)) if os.path.isdir(d) else []:
+            if fn.endswith(".diff"):
+                jobs.append(("must-stay-silent", "%s/%s" % (sub, fn), os.path.join(d, fn)))
     scratch = tempfile.mkdtemp(prefix="vp-selftest-")
+    res = []
     try:
-        sdir = os.path.join(VERIF, "seeded")
-        for name in sorted(os.listdir(sdir)) if os.path.isdir(sdir) else []:
-            mp = os.path.join(sdir, name, "meta.json")
-            if not os.path.exists(mp):
-                continue
-            meta = json.load(open(mp))
-            targets = [meta.get("property")] + list(meta.get("also_breaks", []))
-            if prop not in targets:
-                continue
-            r, err = _run_on_patch(prop, os.path.join(sdir, name, "patch.diff"), scratch)
+        with ThreadPoolExecutor(max_workers=int(os.environ.get("VP_SELFTEST_JOBS", "4"))) as pool:
+            outs = list(pool.map(lambda j: _run_on_patch(prop, j[2], scratch), jobs))
+        for (kind, name, _), (r, err) in zip(jobs, outs):
             if err:
-                res.append({"kind": "must-fire", "name": name, "ok": None, "detail": "skipped: " + err})
+                res.append({"kind": kind, "name": name, "ok": None, "detail": "skipped: " + err})
+            elif kind == "must-fire":
+                rc, viol = r
+                res.append({"kind": kind, "name": name, "ok": rc == 1 and bool(viol), "detail": "exit %d, reported: %s" % (rc, viol[:4])})
             else:
                 rc, viol = r
-                res.append({"kind": "must-fire", "name": name, "ok": rc == 1 and bool(viol), "detail": "exit %d, reported: %s" % (rc, viol[:4])})
-        mdir = os.path.join(VERIF, "selftest", "mutants", prop)
-        for fn in sorted(os.listdir(mdir)) if os.path.isdir(mdir) else []:
-            if not fn.endswith(".diff"):
-                continue
-            r, err = _run_on_patch(prop, os.path.join(mdir, fn), scratch)
-            if err:
-                res.append({"kind": "must-fire", "name": "mutants/" + fn, "ok": None, "detail": "skipped: " + err})
-            else:
-                rc, viol = r
-                res.append({"kind": "must-fire", "name": "mutants/" + fn, "ok": rc == 1 and bool(viol), "detail": "exit %d, reported: %s" % (rc, viol[:4])})
-        edir = os.path.join(VERIF, "selftest", "equivalents")
-        for sub in (prop, "all"):
-            d = os.path.join(edir, sub)
-            if not os.path.isdir(d):
-                continue
-            for fn in sorted(os.listdir(d)):
-                if not fn.endswith(".diff"):
-                    continue
-                r, err = _run_on_patch(prop, os.path.join(d, fn), scratch)
-                if err:
-                    res.append({"kind": "must-stay-silent", "name": "%s/%s" % (sub, fn), "ok": None, "detail": "skipped: " + err})
-                else:
-                    rc, viol = r
-                    res.append({"kind": "must-stay-silent", "name": "%s/%s" % (sub, fn), "ok": rc == 0, "detail": "exit %d%s" % (rc, (", false alarms: %s" % viol[:4]) if viol else "")})
+                res.append({"kind": kind, "name": name, "ok": rc == 0, "detail": "exit %d%s" % (rc, (", false alarms: %s" % viol[:4]) if viol else "")})
     finally:
         shutil.rmtree(scratch, ignore_errors=True)
     return res
